@@ -42,7 +42,8 @@ def gen(rng, tier):
 
 
 _IPS = ["10.0.0.1", "192.0.2.7", "203.0.113.9", "2001:db8::1", "198.51.100.23", "evil", "[2001:db8:cafe::17]:4711", "192.0.2.43:47011"]
-_HOSTS = ["example.com", "internal.lan:8080", "a.b.c", "evil.example"]
+# (the last one: an octet above 0x7f, one character of the strings here - header values are octets, whatever they mean)
+_HOSTS = ["example.com", "internal.lan:8080", "a.b.c", "evil.example", "ex\xe4mple.org"]
 
 
 def _gen_proxy(rng, i):
@@ -88,12 +89,12 @@ def _proxy_headers(case, elems):
                 if e["has"][2]:
                     parts.append("%s=%s" % (nm("host"), q(e["host"])))
                 vals.append(";".join(parts) if parts else "by=x")
-            hs.append((b"forwarded", ("," + sp).join(vals).encode()))
+            hs.append((b"forwarded", ("," + sp).join(vals).encode("latin-1")))
     else:
         for g in groups:
             hs.append((b"x-forwarded-for", ("," + sp).join(e["for"] for e in g).encode()))
             hs.append((b"x-forwarded-proto", ("," + sp).join(e["proto"] for e in g).encode()))
-            hs.append((b"x-forwarded-host", ("," + sp).join(e["host"] for e in g).encode()))
+            hs.append((b"x-forwarded-host", ("," + sp).join(e["host"] for e in g).encode("latin-1")))
     if case.get("other_family"):
         # headers of the *other* convention, written by whoever likes (the proxies in front only maintain the configured one): never used
         k = case["other_family"]
@@ -224,7 +225,7 @@ def run_one(case, tally):
             if exp["scheme"] is not None:
                 want["scheme"] = exp["scheme"]
             if exp["host"] is not None:
-                want["host"] = [exp["host"].encode()]
+                want["host"] = [exp["host"].encode("latin-1")]
         gv = view(got)
         if case["scope_type"] == "websocket" and exp is not None and exp["scheme"] is not None:
             # the value comes from the trusted element either way; for a WebSocket scope it may be given in the scope's own vocabulary
